@@ -36,11 +36,20 @@ func genWithLineNumbers(wuffsC, pkg, file string) (string, error) {
 	return string(o), err
 }
 
-// stripLineComments removes the `// file.wuffs:N` lines.
+// stripLineComments removes the `// file.wuffs:N` lines, and the lines of the
+// `-Wconversion` pragma dance around a small-integer op-assign: cgen merges
+// two adjacent dances (buffer.undoWrites) only when nothing was written in
+// between, which a line comment is.
 func stripLineComments(csrc string) string {
 	var b strings.Builder
 	for _, l := range strings.SplitAfter(csrc, "\n") {
+		t := strings.TrimSpace(l)
 		if reLineComment.MatchString(strings.TrimRight(l, "\n")) {
+			continue
+		}
+		switch t {
+		case "#if defined(__GNUC__)", "#pragma GCC diagnostic push", "#pragma GCC diagnostic ignored \"-Wconversion\"",
+			"#pragma GCC diagnostic pop", "#endif":
 			continue
 		}
 		b.WriteString(l)
